@@ -131,7 +131,14 @@ func (ce *concEnv) newWitness(storage string) (*witness.Witness, *vlib.IPersist,
 	return w, ip, closer, nil
 }
 
-func (ce *concEnv) do(w *witness.Witness, r ConcReq) outcome {
+func (ce *concEnv) do(w *witness.Witness, r ConcReq) (res outcome) {
+	// a panic in the code under test is an outcome (one that no sequential order produces),
+	// not a crash of the check
+	defer func() {
+		if p := recover(); p != nil {
+			res = outcome{Kind: fmt.Sprintf("PANIC(%.120v)", p)}
+		}
+	}()
 	id := ce.env.LogIDs[r.Log]
 	if r.Kind == "read" {
 		b, err := w.GetCheckpoint(id)
